@@ -340,6 +340,7 @@ func (e *vsEnv) upload(c *vsClient, a *vsAttempt) {
 	}
 	a.endStep, a.endTime, a.dayHi = r.Step(), time.Now(), dayOf(e.now())
 	e.fs.armClient(c.name, fsFault{})
+	e.auth[c.name] = false // a fault armed for this attempt never outlives it (the request may not have reached the handler)
 	r.Logf("%s: upload end status=%d id=%q clientErr=%v", c.name, a.status, a.id, a.clientErr != nil)
 }
 
